@@ -63,7 +63,11 @@ Hit(M, s) ==
     [] s.a = "P" -> {"DevPformatSortsDicts"}
     [] OTHER -> {}
 
-ObsErr(s) == IF s.st = "ok" THEN "" ELSE IF s.st = "exc" THEN s.cls ELSE "timeout"
+\* the error of the pre-processing passes (what the mechanism model predicts); an exception raised later, by a
+\* codec's own compiler, leaves the passes complete (phase is recorded from the traceback by the driver)
+ObsErr(s) == IF s.st = "ok" THEN ""
+             ELSE IF s.st = "exc" THEN (IF "phase" \in DOMAIN s /\ s.phase = "codec" THEN "" ELSE s.cls)
+             ELSE "timeout"
 
 ------------------------------------------------------------------------------
 (* where two dictionaries differ (diagnostics only)                         *)
@@ -179,7 +183,7 @@ BehVerdict(L, mrec, k, ft) ==
                 LET S == Mech \cup HistSubsets[c]
                     ch == Compile(ModelBefore(d0, L.hist, k, S), s.ne, S)
                     cf == ft[mi][IF s.ne THEN 2 ELSE 1][c]
-                IN IF compileDiffers THEN ch.err # cf.err
+                IN IF compileDiffers THEN ch.err # cf.err \/ View(ch) # View(cf)     \* (a codec compiler that reads another dictionary may also fail / succeed differently)
                    ELSE /\ ch.err = "" /\ cf.err = ""
                         /\ LET dns == DiffNamesAll(ch, cf)
                            IN \A q \in 1..Len(dts) : dts[q] # "*" /\ TypeDiffersGiven(ch, cf, dns, dts[q])
